@@ -231,6 +231,10 @@ pub enum Step {
     Flush,
     /// `Proactor::waker().wake()` from the lab thread
     Wake,
+    /// A thread-pool job that finishes *while the driver sleeps in `poll`*, and makes a watched descriptor
+    /// (stream `res`) readable just before it does: its wake-up and the readiness land in the same round.
+    /// Afterwards its completion is deliverable and the driver must not go to sleep on it.
+    JobRace { res: u16, n: u16 },
 }
 
 #[derive(Debug, Clone, Serialize, Deserialize)]
@@ -342,6 +346,9 @@ struct OpRec {
     waker: Option<Arc<CountWaker>>,
     token_cancelled: bool,
     job_gate: Option<Arc<AtomicBool>>,
+    /// (descriptor to write to, bytes) the job writes right before it finishes; how many bytes it wrote (-1 = not yet)
+    job_feed: Option<Arc<std::sync::Mutex<Option<(i32, Vec<u8>)>>>>,
+    job_fed: Option<Arc<std::sync::atomic::AtomicI64>>,
     offset: u64,
     multi_accepts: usize,
     zc_first: Option<io::Result<usize>>,
@@ -378,6 +385,8 @@ struct Lab {
     /// what the peer of stream 1 read (data sent by SendZc ops)
     received: Vec<u8>,
     pool_limit: usize,
+    /// most operations a program may submit (raised for the lab's own busy rounds)
+    op_limit: usize,
     /// regression cases only: do not drain pool jobs before a driver drop
     keep_pool_jobs: bool,
 }
@@ -473,6 +482,7 @@ impl Lab {
             lab_thread: std::thread::current().id(),
             received: vec![],
             pool_limit: POOLS[case.pool_ix as usize % POOLS.len()],
+            op_limit: 14,
             keep_pool_jobs: case.cap_ix >= 100,
         })
     }
@@ -515,7 +525,7 @@ impl Lab {
     // ---------------------------------------------------------------- steps
 
     fn submit(&mut self, kind: Kind, res_raw: u16, cap_raw: u16, pf: bool) -> R<()> {
-        if self.p.is_none() || self.ops.len() >= 14 {
+        if self.p.is_none() || self.ops.len() >= self.op_limit {
             return Ok(());
         }
         // a saturated thread pool makes `push` spin until a worker is free (by design: the job is
@@ -543,6 +553,8 @@ impl Lab {
             waker: None,
             token_cancelled: false,
             job_gate: None,
+            job_feed: None,
+            job_fed: None,
             offset: 0,
             multi_accepts: 0,
             zc_first: None,
@@ -641,10 +653,20 @@ impl Lab {
                 rec.job_gate = Some(gate.clone());
                 rec.res = 5;
                 let v = 1000 + op_ix as u32;
+                let feed: Arc<std::sync::Mutex<Option<(i32, Vec<u8>)>>> = Arc::new(std::sync::Mutex::new(None));
+                let fed = Arc::new(std::sync::atomic::AtomicI64::new(-1));
+                rec.job_feed = Some(feed.clone());
+                rec.job_fed = Some(fed.clone());
                 let f: Box<dyn FnOnce() -> BufResult<usize, u32> + Send> = Box::new(move || {
                     let t0 = Instant::now();
                     while !gate.load(Ordering::SeqCst) && t0.elapsed() < Duration::from_secs(60) {
                         std::thread::sleep(Duration::from_micros(200));
+                    }
+                    // `JobRace`: make the watched descriptor readable as the very last thing
+                    if let Some((fd, data)) = feed.lock().unwrap_or_else(|p| p.into_inner()).take() {
+                        let w = unsafe { libc::write(fd, data.as_ptr() as *const _, data.len()) };
+                        unsafe { libc::close(fd) };
+                        fed.store(w.max(0) as i64, Ordering::SeqCst);
                     }
                     BufResult(Ok(v as usize), v)
                 });
@@ -1128,6 +1150,86 @@ impl Lab {
     // ---------------------------------------------------------------- quiesce
 
     /// Before any awaited event is supplied: cancelled operations must finish on their own (C05).
+    fn job_race(&mut self, res_raw: u16, n_raw: u16) -> R<()> {
+        if self.p.is_none() || self.ops.len() + 2 > 14 {
+            return Ok(());
+        }
+        let drv = if self.iour { "iour" } else { "poll" };
+        let s = mono_ix(res_raw, 3);
+        if self.streams[s].handle.is_none() || self.streams[s].peer.is_none() || self.streams[s].fed.len() > 3000 {
+            return Ok(());
+        }
+        // a reader on the stream, so that the driver watches the descriptor
+        let watched = |ops: &Vec<OpRec>| ops.iter().any(|o| o.kind.stream_read() && o.res == s && o.st == St::Pending && !o.token_cancelled);
+        if !watched(&self.ops) {
+            let (kind, raw) = match s {
+                0 => (Kind::Recv, 0u16),
+                1 => (Kind::Recv, 40000u16),
+                _ => (Kind::ReadPipe, 0u16),
+            };
+            self.submit(kind, raw, n_raw, false)?;
+        }
+        let j = self.ops.len();
+        self.submit(Kind::Job, 0, 0, false)?;
+        if self.ops.len() != j + 1 || self.ops[j].st != St::Pending {
+            return Ok(());
+        }
+        let n = mono_range(n_raw, 1, 16);
+        let start = self.streams[s].fed.len();
+        let data: Vec<u8> = (0..n).map(|k| pattern(s, start + k)).collect();
+        let fd = unsafe { libc::dup(self.streams[s].peer.as_ref().unwrap().as_raw_fd()) };
+        if fd < 0 {
+            return Ok(());
+        }
+        *self.ops[j].job_feed.as_ref().unwrap().lock().unwrap_or_else(|p| p.into_inner()) = Some((fd, data.clone()));
+        let was_watched = watched(&self.ops);
+        self.ops[j].job_gate.as_ref().unwrap().store(true, Ordering::SeqCst);
+        // sleep in the driver while the job finishes
+        self.poll(Duration::from_millis(250))?;
+        let fed = self.ops[j].job_fed.clone().unwrap();
+        let hook = self.ops[j].hook_id;
+        let t0 = Instant::now();
+        loop {
+            let sent = log_since(0).iter().any(|it| matches!(it, Item::Hook(Event::PoolSent { id, delivered: true }, _) if Some(*id) == hook));
+            if fed.load(Ordering::SeqCst) >= 0 && sent {
+                break;
+            }
+            if t0.elapsed() > Duration::from_secs(20) {
+                return Err(Outcome::inconclusive("JobRace: the thread-pool job did not finish within 20 s"));
+            }
+            std::thread::sleep(Duration::from_micros(200));
+        }
+        let w = fed.load(Ordering::SeqCst) as usize;
+        self.streams[s].fed.extend_from_slice(&data[..w.min(data.len())]);
+        self.label(if was_watched { "job-finished-during-poll-with-readiness" } else { "job-finished-during-poll" });
+        if self.mode == Mode::C02 && was_watched {
+            self.nontrivial = true;
+        }
+        // The job's completion entry is with the driver now (PoolSent { delivered: true }) and its waker was woken:
+        // no poll may sleep on it. A poll that does return quickly (other descriptors are ready) may leave it for
+        // the next one, a bounded number of times.
+        for _ in 0..40 {
+            if self.pop(j)? {
+                return Ok(());
+            }
+            let t0 = Instant::now();
+            self.poll(Duration::from_secs(3))?;
+            if t0.elapsed() > Duration::from_secs(2) && self.ops[j].st == St::Pending {
+                let delivered = self.pop(j)?;
+                vio!(
+                    self,
+                    format!("slept-on-deliverable-completion/Job/{drv}"),
+                    "the thread-pool job of op #{j} had handed its completion entry to the driver and woken it, yet Proactor::poll(3 s) slept {:?} before returning (result delivered afterwards: {delivered})",
+                    t0.elapsed()
+                );
+            }
+        }
+        if !self.pop(j)? {
+            vio!(self, format!("left-waiting/Job/{drv}"), "the finished thread-pool job of op #{j} was not delivered by 40 polls");
+        }
+        Ok(())
+    }
+
     fn settle_cancels(&mut self) -> R<()> {
         if self.p.is_none() {
             return Ok(());
@@ -1140,6 +1242,63 @@ impl Lab {
             return Ok(());
         }
         let freed = |h: usize| log_since(0).iter().any(|it| matches!(it, Item::Hook(Event::OpFree { id }, _) if *id == h));
+        // Busy phase: a neighbour descriptor is made ready in every single round (one more byte on a stream none
+        // of the cancelled operations uses, and a fresh readiness poll on it). "Promptly" cannot depend on the
+        // driver having an idle round: the cancelled operations have to finish all the same, within 8 polls.
+        let busy_stream = (0..3usize).find(|&r| {
+            self.streams[r].handle.is_some()
+                && self.streams[r].peer.is_some()
+                && self.streams[r].fed.len() < 2900
+                && !self.ops.iter().any(|o| o.res == r && o.st != St::Done && (o.token_cancelled || o.st == St::Dropped))
+        });
+        if let (Mode::C05, Some(x)) = (self.mode, busy_stream) {
+            let raw = [0u16, 30000, 65535][x];
+            self.label("busy-settle");
+            self.op_limit = self.ops.len() + 8;
+            let mut open = true;
+            for _ in 0..8 {
+                open = false;
+                for &i in &token {
+                    if self.ops[i].st == St::Pending && !self.pop(i)? {
+                        open = true;
+                    }
+                }
+                for &(_, h) in &dropped {
+                    if !freed(h) {
+                        open = true;
+                    }
+                }
+                if !open {
+                    break;
+                }
+                self.feed(raw, 0);
+                self.submit(Kind::PollOnce, raw, 0, false)?;
+                self.poll(Duration::ZERO)?;
+            }
+            self.op_limit = 14.max(self.ops.len());
+            if open {
+                for &i in &token {
+                    if self.ops[i].st == St::Pending && !self.pop(i)? {
+                        vio!(
+                            self,
+                            format!("cancel-starved-by-busy-neighbour/token/{:?}/{drv}", self.ops[i].kind),
+                            "op #{i} ({:?}) was cancelled through its token but is still pending after 8 polls in each of which another descriptor was ready",
+                            self.ops[i].kind
+                        );
+                    }
+                }
+                for &(i, h) in &dropped {
+                    if !freed(h) {
+                        vio!(
+                            self,
+                            format!("cancel-starved-by-busy-neighbour/drop/{:?}/{drv}", self.ops[i].kind),
+                            "op #{i} ({:?}) was cancelled by dropping its key but the driver still holds it after 8 polls in each of which another descriptor was ready",
+                            self.ops[i].kind
+                        );
+                    }
+                }
+            }
+        }
         for round in 0..12 {
             let mut open = false;
             for &i in &token {
@@ -1702,6 +1861,7 @@ fn run_inner(lab: &mut Lab, case: &Case) -> R<()> {
                     lab.label("wake");
                 }
             }
+            Step::JobRace { res, n } => lab.job_race(res, n)?,
         }
     }
     Ok(())
@@ -1866,8 +2026,9 @@ fn step_strategy(mode: Mode) -> SBoxedStrategy<Step> {
     let dh = any::<u16>().prop_map(|res| Step::DropHandle { res });
     let harness = prop_oneof![6 => feed, 1 => close, 2 => Just(Step::Connect), 2 => gate];
     let observe = prop_oneof![5 => poll, 4 => pop, 1 => popm, 2 => wk, 1 => Just(Step::Flush), 1 => Just(Step::Wake)];
+    let race = (any::<u16>(), any::<u16>()).prop_map(|(res, n)| Step::JobRace { res, n });
     match mode {
-        Mode::C02 => prop_oneof![8 => submit, 11 => harness, 12 => observe].sboxed(),
+        Mode::C02 => prop_oneof![8 => submit, 11 => harness, 12 => observe, 2 => race].sboxed(),
         Mode::C05 => prop_oneof![8 => submit, 7 => harness, 9 => observe, 3 => cancel, 4 => tok, 2 => tok2].sboxed(),
         Mode::C01 => prop_oneof![9 => submit, 9 => harness, 8 => observe, 4 => cancel, 2 => tok, 2 => dh, 1 => Just(Step::DropDriver)].sboxed(),
     }
@@ -1911,6 +2072,12 @@ pub fn regressions(mode: Mode) -> Vec<(&'static str, Case)> {
                             Step::Poll { block: false },
                         ],
                     },
+                ));
+                // a pool job whose wake-up arrives in the same poll round as a readiness event: its completion must
+                // not wait for an idle round or a timeout (polling driver: the channel is looked at every round)
+                v.push((
+                    "job-finishes-during-poll-with-readiness",
+                    Case { iour, cap_ix: 3, pool_ix: 1, steps: vec![recv(0), Step::JobRace { res: 0, n: 0 }, recv(40000), Step::JobRace { res: 30000, n: 30000 }, Step::JobRace { res: 65535, n: 9 }] },
                 ));
                 v.push(("two-accept-multi-capacity-1", Case { iour, cap_ix: 0, pool_ix: 0, steps: vec![sub(Kind::AcceptMulti), sub(Kind::AcceptMulti), Step::Connect] }));
             }
